@@ -369,6 +369,9 @@ func drawCfg(r *eng.Rand, tier string, i int) (cfg, bool) {
 		case 2:
 			b = 60
 		}
+		if b < lo {
+			b = lo
+		}
 		if j == 0 && b < lo+2 && lo+2 <= 61 {
 			b = lo + 2
 		}
@@ -425,9 +428,9 @@ func drawCfg(r *eng.Rand, tier string, i int) (cfg, bool) {
 func cases(tier string, seed int64) []eng.Case {
 	r := eng.NewRand("c05-cases", seed)
 	var out []eng.Case
-	nprog, nerr := 288, 24
+	nprog, nerr := 1200, 32
 	if tier == "thorough" {
-		nprog, nerr = 2400, 64
+		nprog, nerr = 8000, 96
 	}
 	for i := 0; i < nprog; i++ {
 		cf, ok := drawCfg(r, tier, i)
@@ -442,40 +445,22 @@ func cases(tier string, seed int64) []eng.Case {
 		out = append(out, eng.Case{ID: id, Sig: "C05|program", Desc: c, Run: func(ctx *eng.Ctx) { runPrograms(ctx, c) }})
 	}
 	for i := 0; i < nerr; i++ {
-		cf, ok := drawCfg(r, tier, i)
+		var cf cfg
+		ok := false
+		for k := 0; k < 64 && !ok; k++ {
+			cf, ok = drawCfg(r, tier, i+k)
+			ok = ok && cf.LogN <= 9 && len(cf.Q) >= 3
+		}
 		if !ok {
 			continue
 		}
-		cf.Kind = "errors"
-		cf.Eval = "new"
-		if cf.LogN > 9 {
-			cf.LogN = 9 - r.N(3)
-			cf2, ok2 := drawCfgWithLogN(r, tier, i, cf.LogN)
-			if !ok2 {
-				continue
-			}
-			cf2.Kind, cf2.Eval = "errors", "new"
-			cf = cf2
-		}
-		if len(cf.Q) < 3 {
-			continue
-		}
+		cf.Kind, cf.Eval = "errors", "new"
 		cf.Mode = []string{"bgv", "bfv"}[i%2]
 		c := cf
 		id := fmt.Sprintf("errors/%03d/logN%d/t%db/q%d/%s", i, c.LogN, ref.BitLen(c.T), len(c.Q), c.Mode)
 		out = append(out, eng.Case{ID: id, Sig: "C05|errors", Desc: c, Run: func(ctx *eng.Ctx) { runErrors(ctx, c) }})
 	}
 	return out
-}
-
-func drawCfgWithLogN(r *eng.Rand, tier string, i, logN int) (cfg, bool) {
-	for k := 0; k < 64; k++ {
-		cf, ok := drawCfg(r, tier, i)
-		if ok && cf.LogN == logN {
-			return cf, true
-		}
-	}
-	return cfg{}, false
 }
 
 func init() {
